@@ -166,7 +166,7 @@ func tiePair(t *rapid.T, p h.Pair) h.Pair {
 var prop = h.Prop[Spec]{
 	ID: "C15", Name: "determinism",
 	Gen: func(t *rapid.T) Spec {
-		p := h.GenPair(t, h.GenOpts{KindChange: true, MaxOld: 5})
+		p := h.GenPair(t, h.GenOpts{KindChange: true, MaxOld: 5, ConstCap: 16384})
 		if rapid.IntRange(0, 1).Draw(t, "tie") == 0 {
 			p = tiePair(t, p)
 		}
